@@ -68,6 +68,55 @@ Theorem C04_loser_only_requeues_or_cancels :
                 g_starts (apply_effect s (EQ qs)) = g_starts s).
 Proof. exact (conj failed_claim_pc (conj loser_pcs_quiet (conj quiet_step eq_effect_frame))). Qed.
 
+(* exactly one StartTask per start: the StartTask rows pushed for stage i during any run are at most one per claim commit of the
+   run (at most one, C04_one_claim) plus one if a plan commit was already outstanding when the run began *)
+Theorem C04_one_start_task :
+  forall s ks sched i,
+    st_count i (fst (run_conc sched (s, map spawn ks))) <= st_count i s + b2n (pending_b s i) + b2n (not_started s i).
+Proof. exact one_start_task. Qed.
+
+(* ---- join tracking under a concurrent claim (first-of / quorum joins whose remaining branches finish later) ---- *)
+(* what IS lost: the claim. A ConcurrencyError on a stage that is still NOT_STARTED means the row is newer than the claimant's
+   snapshot (somebody stored it after the read); the handler swallows it. *)
+Theorem C04_join_bump_claim_lost :
+  forall s w id j retry st row,
+    Fresh s w -> w_kind w = WStart id j retry -> w_pc w = SClaim st ->
+    get_stage s j = Some row -> s_status row = NOT_STARTED -> s_status st = NOT_STARTED ->
+    claim_step s id j retry st = (ENone, PMark) ->
+    (forall k o, s_mutex st = Some k -> claim_lookup (w_claims s) true k = Some o -> o = j \/ owner_gone_or_complete s o = true) ->
+    s_choice st = None ->
+    (s_version st < s_version row)%Z.
+Proof. exact conc_error_means_newer. Qed.
+
+(* what is NOT lost: the start.  In the CompleteStage program the downstream StartStage is pushed AFTER the bump, in the final
+   commit: one step of a CompleteStage worker that is past its first read either keeps it on the way to that commit (or raised:
+   its message stays in the queue) or IS that commit and the StartStage(j) row is in the queue afterwards. *)
+Theorem C04_join_bump_then_push :
+  forall s w k e p id b j,
+    w_kind w = WComplete id b -> wfw w -> Fresh s w -> region s id b (w_pc w) ->
+    tokpc (w_pc w) = true -> (w_pc w = PRaised \/ exists x, cok s b x) -> In j (downstream s b) ->
+    step_worker s w = Some (k, e, p) ->
+    (tokpc p = true /\ (p = PRaised \/ exists x, cok (apply_effect s e) b x)) \/
+    (exists r, In r (w_queue (apply_effect s e)) /\ q_msg r = MStartStage j 0 /\ w_next s <= q_id r).
+Proof. exact tok_step. Qed.
+
+(* the invariant: from ANY configuration c reached by StartStage / CompleteStage workers and sweeps (no SignalStage worker, at
+   most one CompleteStage worker per stage), for ANY continuation: if the join stage j is still NOT_STARTED and its version is
+   not the one it had in c (it was bumped: only join tracking can do that, see the proof), then a StartStage(j) pushed since c
+   is in the queue - no worker of the run handles it - or a CompleteStage worker of an upstream of j is between its first read
+   and its final commit, or raised and keeps its message.  With a SignalStage worker it fails: C04_nonclaimant_bump_refuted. *)
+Theorem C04_join_bump_safe :
+  forall ks j c sched,
+    no_signal ks -> NoDup (flat_map complete_of ks) -> structural ks c ->
+    let c' := run_conc sched c in
+    bumped (fst c) (fst c') j -> tok_queue (fst c) (fst c') j \/ tok_worker c' j.
+Proof. exact join_bump_safe. Qed.
+
+(* every configuration reached from spawned workers is `structural` *)
+Theorem C04_structural_reachable :
+  forall s ks sched, no_signal ks -> NoDup (flat_map complete_of ks) -> structural ks (run_conc sched (s, map spawn ks)).
+Proof. exact (fun s ks sched Hn Hd => structural_run ks sched Hn Hd _ (structural_spawn s ks)). Qed.
+
 (* ---- what is NOT guaranteed: design finding F8 ---- *)
 (* A non-claimant writer (a persistent SignalStage buffered while the stage is NOT_STARTED; same for any handler that
    stores the stage) bumps the version between the claimant's read and its claim: the claim loses its CAS, the handler
@@ -123,7 +172,34 @@ Example dia_one_start :
   map (fun r => msg_view (q_msg r)) (w_queue (fst c)) = [(3, 3, 0, 0%Z); (3, 3, 0, 0%Z); (7, 3, 0, 0%Z)].
 Proof. vm_compute. repeat split. Qed.
 
+(* first-of join: B complete (StartStage(J) #22 pending), C completing.  The claimant reads J, C's join tracking bumps J, the
+   claim loses (swallowed), C's final commit pushes StartStage(J) #23: J is NOT_STARTED with a bumped version and #23 is pending *)
+Definition fo_state : state :=
+  mk_state RUNNING
+    [mk_stage [] J_AND 0 None None SUCCEEDED true 6 false [] [] false [SUCCEEDED];
+     mk_stage [0] J_AND 0 None None SUCCEEDED true 6 false [] [] false [SUCCEEDED];
+     mk_stage [0] J_AND 0 None None RUNNING true 5 false [] [] false [SUCCEEDED];
+     mk_stage [1; 2] J_DISCRIMINATOR 0 None None NOT_STARTED false 1 false [1] [] false [NOT_STARTED]]
+    [(20, MCompleteStage 2); (22, MStartStage 3 0)] 23 [].
+Definition fo_workers : list wkind := [WStart 22 3 0; WComplete 20 2].
+Example fo_bump_covered :
+  let c := run_conc [0; 0; 1; 1; 1; 1; 0; 1; 0; 1] (fo_state, map spawn fo_workers) in
+  no_signal fo_workers /\ NoDup (flat_map complete_of fo_workers) /\
+  not_started (fst c) 3 = true /\ version_of (fst c) 3 = 2%Z /\ version_of fo_state 3 = 1%Z /\ all_done c = true /\
+  map (fun r => (q_id r, msg_view (q_msg r))) (w_queue (fst c)) = [(20, (4, 2, 0, 0%Z)); (22, (3, 3, 0, 0%Z)); (23, (3, 3, 0, 0%Z))] /\
+  pending_start c 3 = true.
+Proof.
+  vm_compute. repeat split; auto.
+  - intros id i n H. repeat (destruct H as [H|H]; [discriminate|]). exact H.
+  - constructor; [intros []|constructor].
+Qed.
+
 Print Assumptions C04_source_shape.
+Print Assumptions C04_one_start_task.
+Print Assumptions C04_join_bump_claim_lost.
+Print Assumptions C04_join_bump_then_push.
+Print Assumptions C04_join_bump_safe.
+Print Assumptions C04_structural_reachable.
 Print Assumptions C04_snapshots_fresh.
 Print Assumptions C04_one_claim.
 Print Assumptions C04_claim_cas_exclusive.
